@@ -1,4 +1,6 @@
 import Plotink.Proofs.C06
+import Plotink.Proofs.C06GenTop
+import Plotink.Proofs.C06GenEbb3Methods
 
 /-! # C06 — motion / configuration helpers emit exactly the documented EBB command text
 
@@ -278,5 +280,189 @@ example : legacyEmitWith truthy true true (.penDown 200 (some 0)) = some [⟨"SP
 example : ebb3EmitWith truthy true ⟨0, 0⟩ (.penUp 200 (some 0)) = some [⟨"SP", [1, 200]⟩] := by decide
 example : legacyEmitWith truthy true true (.lowLevel 1 1 0 0 0 0 (some 0)) = some [⟨"LM", [1, 1, 0, 0, 0, 0]⟩] := by
   decide
+
+
+/-! ## The same statements about the SOURCE-REGENERATED code
+
+`Gen.ebb_motion_*` (the legacy helpers) and `Gen.EBBMotionWrap_*` / `Gen.EBB3_*` (the EBB3 methods) are regenerated
+from `plotink/ebb_motion.py`, `ebb3_motion.py`, `ebb3_serial.py` on every run (`translator/pyio2lean.py`); they call the
+regenerated `ebb_serial.command/query` (bridged to `Model/C07.lean` by `C07_gen_bridge`) and the regenerated
+`EBB3.command` (bridged to `Model/Ebb3.lean` by `Ebb3Gen.command_bridge`).  `C06Gen.legacyGen fuel port verbose w r` /
+`C06Gen.ebb3Gen fuel w r` is the call of the regenerated helper / method that serves the request `r`, on the encoded
+arguments; `C06Gen.Wrote o w (some l)` / `Wrote3`: the call ended (value or escaping exception, never out of fuel) and
+the port's write log grew by exactly the wire texts of `l`.
+
+Domain.  Legacy: `C06Gen.Dom w.port` — every scripted fault is a serial I/O exception and every scripted line is ASCII
+(acknowledgements, silence, error replies, garbage and I/O faults in any order: much more than the acknowledging board
+of the model); fuel ≥ 101, plus one pass per chunk for the pause loop.  EBB3: `Ebb3Gen.Good w` and no recorded error;
+fuel ≥ 26.  Covered: every request the legacy layer serves except `queryMotorsPI` (23 helpers); the 14 EBB3 methods that
+transmit a single command (`C06Gen.Ebb3Covered`).  A source whose helper formats another text, tests an optional
+argument by truthiness, chunks or suppresses differently no longer satisfies these theorems (the build fails). -/
+
+open C06Gen in
+/-- **Legacy layer, regenerated code.**  Each bridged helper writes exactly the documented command(s), preceded by the
+version query for the two gated helpers — or, when the gate did not return `True`, only the version query. -/
+theorem C06_gen_legacy_documented (b : Board) (fuel : Nat) (vb : PyObj.Val) (w : PyObj.World PyObj.NoObj) (r : Req)
+    (o : PyObj.Out PyObj.NoObj) (hf : FuelFor fuel r) (hd : Dom w.port) (ho : legacyGen fuel true vb w r = some o) :
+    ∃ sent, Wrote o w (some sent) ∧
+      (sent = legacyGate r ++ documented b r ∨ (legacyGate r ≠ [] ∧ sent = legacyGate r)) := by
+  obtain ⟨fwOk, hw⟩ := legacyGen_emit fuel true vb w r o hf hd ho
+  have hs : legacySupports r := ((legacyGen_isSome fuel true vb w r).mp (by rw [ho]; rfl)).1
+  have hsome : ∀ f, ∃ l, legacyEmit true f r = some l := fun f =>
+    Option.isSome_iff_exists.mp ((C06_supports true f b r).1.mpr hs)
+  obtain ⟨l, hl⟩ := hsome fwOk
+  refine ⟨l, by rw [← hl]; exact hw, ?_⟩
+  cases fwOk with
+  | true => exact Or.inl (C06_legacy_documented b r l hl)
+  | false =>
+    by_cases hg : legacyGate r = []
+    · rw [(C06_legacy_gate r).2 hg] at hl
+      exact Or.inl (C06_legacy_documented b r l hl)
+    · rw [(C06_legacy_gate r).1 hg] at hl
+      cases hl
+      exact Or.inr ⟨hg, rfl⟩
+
+open C06Gen Ebb3Gen in
+/-- **EBB3 layer, regenerated code.**  On a connected object with no recorded error each bridged method hands exactly
+the documented command to the port, whatever the board replies. -/
+theorem C06_gen_ebb3_documented (b : Board) (fuel : Nat) (hf : 26 ≤ fuel) (w : PyObj.World Gen.EBB3_Obj) (hg : Good w)
+    (he : w.obj.err = .none) (hc : connected w = true) (r : Req) (o : PyObj.Out Gen.EBB3_Obj)
+    (ho : ebb3Gen fuel w r = some o) :
+    Wrote3 o w (some (documented b r)) := by
+  have hw := ebb3Gen_emit fuel hf b w hg he r o ho
+  rw [hc] at hw
+  have hcov : Ebb3Covered r := (ebb3Gen_isSome fuel w r).mp (by rw [ho]; rfl)
+  obtain ⟨l, hl⟩ := Option.isSome_iff_exists.mp (ebb3Emit_isSome_of_covered b r hcov)
+  rw [hl] at hw
+  rw [← C06_ebb3_documented b r l hl]
+  exact hw
+
+open C06Gen Ebb3Gen in
+/-- **The two regenerated layers transmit the same text** for the same request (the legacy gate query aside). -/
+theorem C06_gen_layers_agree (b : Board) (fuel : Nat) (hf : 101 ≤ fuel) (vb : PyObj.Val) (r : Req)
+    (w₁ : PyObj.World PyObj.NoObj) (o₁ : PyObj.Out PyObj.NoObj) (hf₁ : FuelFor fuel r) (hd : Dom w₁.port)
+    (h₁ : legacyGen fuel true vb w₁ r = some o₁)
+    (w₂ : PyObj.World Gen.EBB3_Obj) (o₂ : PyObj.Out Gen.EBB3_Obj) (hg : Good w₂) (he : w₂.obj.err = .none)
+    (hc : connected w₂ = true) (h₂ : ebb3Gen fuel w₂ r = some o₂) :
+    ∃ l₁ l₂, Wrote o₁ w₁ (some l₁) ∧ Wrote3 o₂ w₂ (some l₂) ∧
+      (l₁ = legacyGate r ++ l₂ ∨ (legacyGate r ≠ [] ∧ l₁ = legacyGate r)) := by
+  obtain ⟨l₁, hw₁, hcase⟩ := C06_gen_legacy_documented b fuel vb w₁ r o₁ hf₁ hd h₁
+  exact ⟨l₁, documented b r, hw₁, C06_gen_ebb3_documented b fuel (by omega) w₂ hg he hc r o₂ h₂, hcase⟩
+
+open C06Gen Ebb3Gen in
+/-- **Order, regenerated code**: both `doXYMove` and `xy_move` append the bytes `SM,<dur>,<dy>,<dx>\r`. -/
+theorem C06_gen_order (b : Board) (fuel : Nat) (hf : 101 ≤ fuel) (dx dy dur : Int) (vb : PyObj.Val) :
+    (∀ (w : PyObj.World PyObj.NoObj), C07Gen.IoScript w.port →
+      ∃ w', outWorld (Gen.ebb_motion_doXYMove fuel .port (.int dx) (.int dy) (.int dur) vb w) = some w' ∧
+        w'.port.log = w.port.log ++
+          [("SM," ++ Int.repr dur ++ "," ++ Int.repr dy ++ "," ++ Int.repr dx ++ "\r").toList]) ∧
+    (∀ (w : PyObj.World Gen.EBB3_Obj), Good w → w.obj.err = .none → connected w = true →
+      ∃ w', outWorld3 (Gen.EBBMotionWrap_xy_move fuel (.int dx) (.int dy) (.int dur) w) = some w' ∧
+        w'.port.log = w.port.log ++
+          [("SM," ++ Int.repr dur ++ "," ++ Int.repr dy ++ "," ++ Int.repr dx ++ "\r").toList]) := by
+  have hwire : Cmd.wire ⟨"SM", [dur, dy, dx]⟩ = "SM," ++ Int.repr dur ++ "," ++ Int.repr dy ++ "," ++ Int.repr dx ++ "\r" := by
+    have h := (C06_order b dx dy dur).1
+    simpa [legacyEmit, legacyEmitWith, wires] using h
+  constructor
+  · intro w hio
+    obtain ⟨w', h1, h2⟩ := doXYMove_bridge fuel hf true true dx dy dur vb w hio
+    refine ⟨w', h1, ?_⟩
+    rw [h2]
+    simp [legacyEmit, legacyEmitWith, hwire]
+  · intro w hg he hc
+    obtain ⟨w', h1, h2⟩ := xy_move_bridge fuel (by omega) b dx dy dur w hg he
+    refine ⟨w', h1, ?_⟩
+    rw [h2, hc]
+    simp [ebb3Emit, ebb3EmitWith, hwire]
+
+open C06Gen in
+/-- **Clamp, regenerated code**: `sendEnableMotors` appends `EM,<c>,<c>` with `c = clamp res` in 0..5. -/
+theorem C06_gen_clamp (fuel : Nat) (hf : 101 ≤ fuel) (res : Int) (vb : PyObj.Val) (w : PyObj.World PyObj.NoObj)
+    (hio : C07Gen.IoScript w.port) :
+    ∃ w', outWorld (Gen.ebb_motion_sendEnableMotors fuel .port (.int res) vb w) = some w' ∧
+      w'.port.log = w.port.log ++ [(Cmd.wire ⟨"EM", [clampDoc res, clampDoc res]⟩).toList] ∧
+      0 ≤ clampDoc res ∧ clampDoc res ≤ 5 := by
+  obtain ⟨w', h1, h2⟩ := sendEnableMotors_bridge fuel hf true true res vb w hio
+  refine ⟨w', h1, ?_, clampDoc_range res⟩
+  rw [h2]
+  simp [legacyEmit, legacyEmitWith, clampRes_eq]
+
+open C06Gen in
+/-- **Pause, regenerated code**: `doTimedPause` appends zero-moves `SM,<d>,0,0` whose durations each lie in 1..750 and
+sum to `n` when `n ≥ 1`, and nothing when `n ≤ 0`. -/
+theorem C06_gen_pause (fuel : Nat) (hf : 101 ≤ fuel) (n : Int) (hn : n.toNat + 1 ≤ fuel) (vb : PyObj.Val)
+    (w : PyObj.World PyObj.NoObj) (hd : Dom w.port) :
+    ∃ (ds : List Int) (w' : PyObj.World PyObj.NoObj) (v : PyObj.Val),
+      Gen.ebb_motion_doTimedPause fuel .port (.int n) vb w = .val v w' ∧
+      w'.port.log = w.port.log ++ ds.map (fun d => (Cmd.wire ⟨"SM", [d, 0, 0]⟩).toList) ∧
+      (n ≤ 0 → ds = []) ∧ (1 ≤ n → (∀ d ∈ ds, 1 ≤ d ∧ d ≤ 750) ∧ ds.sum = n) := by
+  obtain ⟨ds, hl, _, h0, h1⟩ := C06_pause ⟨0, 0⟩ n
+  obtain ⟨w', v, e, hlog, _⟩ := doTimedPause_bridge fuel hf true true n hn vb w hd
+  refine ⟨ds, w', v, e, ?_, h0, h1⟩
+  rw [hlog, hl]
+  simp [List.map_map, Function.comp_def]
+
+open C06Gen in
+/-- **Suppression, regenerated code**: `doLowLevelMove` leaves the write log untouched exactly when neither axis can
+move. -/
+theorem C06_gen_suppress (fuel : Nat) (hf : 101 ≤ fuel) (r1 s1 a1 r2 s2 a2 : Int) (clear : Option Int) (vb : PyObj.Val)
+    (w : PyObj.World PyObj.NoObj) (hio : C07Gen.IoScript w.port) :
+    ∃ w', outWorld (Gen.ebb_motion_doLowLevelMove fuel .port (.int r1) (.int s1) (.int a1) (.int r2) (.int s2) (.int a2)
+        (encOpt clear) vb w) = some w' ∧
+      (w'.port.log = w.port.log ↔ ((r1 = 0 ∧ a1 = 0) ∨ s1 = 0) ∧ ((r2 = 0 ∧ a2 = 0) ∨ s2 = 0)) := by
+  obtain ⟨w', h1, h2⟩ := doLowLevelMove_bridge fuel hf true true r1 s1 a1 r2 s2 a2 clear vb w hio
+  refine ⟨w', h1, ?_⟩
+  have hs := (C06_suppress r1 s1 a1 r2 s2 a2 clear).1
+  obtain ⟨l, hl⟩ := Option.isSome_iff_exists.mp
+    ((C06_supports true true ⟨0, 0⟩ (.lowLevel r1 s1 a1 r2 s2 a2 clear)).1.mpr (by simp [legacySupports]))
+  rw [hl] at h2 hs
+  rw [h2, ← hs]
+  simp only [Option.getD_some, List.append_right_eq_self, List.map_eq_nil_iff, Option.some.injEq]
+
+open C06Gen Ebb3Gen in
+/-- **No port, regenerated code**: with `port_name = None` (legacy) or `self.port = None` (EBB3) nothing is written. -/
+theorem C06_gen_noport (b : Board) (fuel : Nat) (vb : PyObj.Val) (r : Req) :
+    (∀ (w : PyObj.World PyObj.NoObj) (o : PyObj.Out PyObj.NoObj), FuelFor fuel r → Dom w.port →
+      legacyGen fuel false vb w r = some o → ∃ w', outWorld o = some w' ∧ w'.port.log = w.port.log) ∧
+    (∀ (w : PyObj.World Gen.EBB3_Obj) (o : PyObj.Out Gen.EBB3_Obj), 26 ≤ fuel → Good w → w.obj.err = .none →
+      connected w = false → ebb3Gen fuel w r = some o → ∃ w', outWorld3 o = some w' ∧ w'.port.log = w.port.log) := by
+  constructor
+  · intro w o hf hd ho
+    obtain ⟨fwOk, w', h1, h2⟩ := legacyGen_emit fuel false vb w r o hf hd ho
+    refine ⟨w', h1, ?_⟩
+    cases hl : legacyEmit false fwOk r with
+    | none => rw [hl] at h2; simpa using h2
+    | some l =>
+      have := (C06_noport fwOk b r l).1 hl
+      subst this
+      rw [hl] at h2; simpa using h2
+  · intro w o hf hg he hc ho
+    obtain ⟨w', h1, h2⟩ := ebb3Gen_emit fuel hf b w hg he r o ho
+    refine ⟨w', h1, ?_⟩
+    rw [hc] at h2
+    cases hl : ebb3Emit false b r with
+    | none => rw [hl] at h2; simpa using h2
+    | some l =>
+      have := (C06_noport true b r l).2 hl
+      subst this
+      rw [hl] at h2; simpa using h2
+
+
+section
+open C06Gen Ebb3Gen PyObj
+/-- non-vacuity of the domains: a script with an acknowledgement, a silent read, a serial fault and a failing write -/
+def C06Gen.exPort : PyIO.Port := ⟨[.line ['O', 'K', '\r', '\n'], .empty, .raise .serialException], [.ok, .raise .osError], [], 0⟩
+example : Dom C06Gen.exPort := by
+  refine ⟨⟨fun c hc => ?_, fun c hc => ?_⟩, by decide⟩
+  · simp [C06Gen.exPort] at hc; subst hc; show PyIO.catches _ _ = true; decide
+  · simp [C06Gen.exPort] at hc; subst hc; show PyIO.catches _ _ = true; decide
+example : FuelFor 1000 (.timedPause 751) := by unfold FuelFor; decide
+example : (legacyGen 101 true .none ⟨⟨⟩, C06Gen.exPort, ⟨.ok (.list []), .none, true⟩⟩ (.absMove 1000 (some 0) (some 500))).isSome = true := rfl
+example : Good ⟨{ Gen.EBB3_Obj.init with port := .port }, C06Gen.exPort, ⟨.ok (.list []), .none, true⟩⟩ := by
+  refine ⟨⟨Or.inl rfl, trivial, trivial, Or.inl rfl, trivial, trivial, trivial⟩, fun c hc => ?_, fun c hc => ?_, fun b hb => ?_⟩
+  · simp [C06Gen.exPort] at hc; subst hc; show PyIO.catches _ _ = true; decide
+  · simp [C06Gen.exPort] at hc; subst hc; show PyIO.catches _ _ = true; decide
+  · simp [C06Gen.exPort] at hb; subst hb; decide
+end
 
 end Plotink
